@@ -15,9 +15,9 @@ Conventions
   installed numpy); integer and string patterns are computed exactly.
 * a Python `dict` is an association list in insertion order with unique keys (`dictSet`).
 * `raise ValueError` is `Outcome.valueError`; the one foreign exception that the code can produce
-  for accepted parameters (an empty var-length property reaching `write_arrays`, defect D15 of
-  `create_props_metadata`) is `Outcome.other "IndexError"`, controlled by the parameter
-  `emptyVlenWriteOk` that the harness *measures* on the tree under test.
+  for accepted parameters (`include_varlength` on an empty node set: `create_props_metadata` indexes
+  `values[0]`, defect D15, owned by C01) is `Outcome.other "IndexError"`, controlled by the parameter
+  `emptyVlenOk` that the harness *measures* on the tree under test.
 * not modelled: numeric overflow of `np.arange(n, dtype=int8)` etc. (n ≤ 127 assumed), string axis
   dtypes (rejected by `values.min()`), `float16` explicit arrays (upcast + warning).
 -/
@@ -235,8 +235,12 @@ def sparseProp (k : Nat) : PropOut :=
 
 def sparseMeta : MetaOut := { dtype := "float64", varlength := false, unit := none }
 
+/-- metadata via `create_props_metadata`: the dtype of the first element (`uint64`); on an empty
+object array the D15 repair records `int64` (the unrepaired function raises, see
+`createDummyInMemGeff`) -/
 def varLengthTriple (n : Nat) : Triple :=
-  ("var_length", varLengthProp n, { dtype := "uint64", varlength := true, unit := none })
+  ("var_length", varLengthProp n,
+   { dtype := if n = 0 then "int64" else "uint64", varlength := true, unit := none })
 
 def sparseTriple (k : Nat) : Triple := ("sparse_prop", sparseProp k, sparseMeta)
 
@@ -254,8 +258,9 @@ def assemble (p : Params) (edges : List (Int × Int)) (axes : List AxisOut) (nod
     axes := axes, nodeProps := nodeAcc.props, edgeProps := edgeAcc.props,
     nodeMeta := metaDict nodeAcc.metas, edgeMeta := metaDict edgeAcc.metas }
 
-/-- `create_dummy_in_mem_geff` -/
-def createDummyInMemGeff (p : Params) : Outcome Geff :=
+/-- `create_dummy_in_mem_geff`.  `emptyVlenOk` = the tree under test has defect D15 repaired
+(`create_props_metadata` accepts an empty object array); the harness measures it. -/
+def createDummyInMemGeff (emptyVlenOk : Bool) (p : Params) : Outcome Geff :=
   let n := p.numNodes
   let ax := axesAcc p
   -- the edge loops: translated from the source (T9)
@@ -271,6 +276,8 @@ def createDummyInMemGeff (p : Params) : Outcome Geff :=
       | .valueError => .valueError
       | .other e => .other e
       | .ok edgeAcc =>
+        -- `create_props_metadata(prop_name, prop_dict)` of the var-length property: `values[0]`
+        if p.vl && n == 0 && !emptyVlenOk then .other "IndexError" else
         .ok (assemble p edges ax.2 (withSparse p.ms n (withVarLength p.vl n nodeAcc))
                                    (withSparse p.ms edges.length edgeAcc))
 
@@ -280,24 +287,20 @@ structure Written where
   geff : Geff
 deriving Repr, DecidableEq
 
-/-- `write_arrays` as far as this property needs it: it fails (D15, `create_props_metadata` on an
-empty object array) exactly for a var-length property on an empty node set unless the tree under
-test has that repaired (`emptyVlenWriteOk`, measured by the harness). -/
-def writeArrays (emptyVlenWriteOk : Bool) (g : Geff) : Outcome Written :=
-  if !emptyVlenWriteOk && g.numNodes == 0 && g.nodeProps.any (fun kv => kv.2.varlength) then
-    .other "IndexError"
-  else .ok ⟨g⟩
+/-- `write_arrays` as far as this property needs it: the store is written from exactly this geff
+(that writing and reading back is then the identity is property C01) -/
+def writeArrays (g : Geff) : Outcome Written := .ok ⟨g⟩
 
 /-- `create_mock_geff`: forwards **every** parameter, writes into a fresh `MemoryStore` -/
-def createMockGeff (emptyVlenWriteOk : Bool) (p : Params) : Outcome (Written × Geff) :=
-  match createDummyInMemGeff
+def createMockGeff (emptyVlenOk : Bool) (p : Params) : Outcome (Written × Geff) :=
+  match createDummyInMemGeff emptyVlenOk
     { idDtype := p.idDtype, timeDtype := p.timeDtype, posDtype := p.posDtype, directed := p.directed,
       numNodes := p.numNodes, numEdges := p.numEdges, extraNode := p.extraNode, extraEdge := p.extraEdge,
       t := p.t, z := p.z, y := p.y, x := p.x, vl := p.vl, ms := p.ms } with
   | .valueError => .valueError
   | .other e => .other e
   | .ok g =>
-    match writeArrays emptyVlenWriteOk g with
+    match writeArrays g with
     | .valueError => .valueError
     | .other e => .other e
     | .ok w => .ok (w, g)
